@@ -1187,7 +1187,22 @@ func (fr *Frame) evalTargets(cl *Clause, st *State, loop *Loop, extra map[string
 			leafs := map[string]bool{}
 			x.leafSorts(elemT, leafs)
 			if !x.ti.isLeaf(elemT) {
-				// struct elements: any descendant of an element; approximate by whole-array membership on root+prefix is not expressible: use sort-level
+				// elements that are structs of scalar fields: exactly those fields of the elements in range
+				if stt, ok := types.Unalias(elemT).Underlying().(*types.Struct); ok {
+					flat := true
+					for i := 0; i < stt.NumFields(); i++ {
+						if !x.ti.isLeaf(stt.Field(i).Type()) {
+							flat = false
+						}
+					}
+					if flat {
+						for i := 0; i < stt.NumFields(); i++ {
+							out = append(out, target{kind: "elemfield", sort: x.ti.sortOf(stt.Field(i).Type()), addr: x.c.SlPtr(sv), fld: i, lo: lo, hi: hi})
+						}
+						continue
+					}
+				}
+				// other struct elements: any descendant of an element; approximate by whole-array membership on root+prefix is not expressible: use sort-level
 				for _, k := range sortedKeys(leafs) {
 					out = append(out, target{kind: "sort", sort: k})
 				}
